@@ -124,7 +124,7 @@ func c09one(r *core.Recorder, w *c09world, o *rig.Origin, c c09case) {
 		return pre.Err == nil && pre.Status == 200
 	}
 	var restore func()
-	sequence := []rig.Req{{Target: target}}
+	sequence := []rig.Req{{Target: target, Timeout: 10 * time.Second}}
 	switch c.Fault {
 	case "none", "cache-full-tiny-limit", "budget-zero", "empty-or-plain":
 		// the fault is in the configuration / body size; two requests in a row
